@@ -291,6 +291,7 @@ func libSortSlice(x *Exec, n *ast.CallExpr, recv *Val, recvExpr ast.Expr, st *St
 			}
 		}
 		x.lastPerm = [2]string{p, q}
+		x.lastLess = nil
 		return Val{}
 	}
 	pi := lit.Type.Params.List[0].Names
@@ -318,6 +319,14 @@ func libSortSlice(x *Exec, n *ast.CallExpr, recv *Val, recvExpr ast.Expr, st *St
 		v := x.eval(ret.Results[0], tmp, env)
 		x.c.inContract--
 		return x.defaultType(v).T
+	}
+	x.lastLess = func(cur *State, a, b string) string {
+		tmp := cur.clone()
+		tmp.vars[iObj] = Val{T: a, Ty: tInt}
+		tmp.vars[jObj] = Val{T: b, Ty: tInt}
+		x.c.inContract++
+		defer func() { x.c.inContract-- }()
+		return x.defaultType(x.eval(ret.Results[0], tmp, env)).T
 	}
 	a := c.freshName("a")
 	b := c.freshName("b")
